@@ -1842,6 +1842,8 @@ class Interp:
                     r = self.call(d, [x, y], {})
                     if not (isinstance(r, Obj) and r.cls.name == "NotImplementedType"):
                         return self.truth(r)
+        if isinstance(a, float) and isinstance(b, float) and (a != a or b != b):
+            return False        # a NaN is equal to nothing, itself included (== has no identity short-cut; containers' `in` has)
         try:
             return keq(a, b)
         except UndecidedCond as u:
